@@ -13,7 +13,7 @@
       is_matching s c ch t           t = None: c is subscribed to channel ch; t = Some p: c is
                                      subscribed to pattern p and p matches ch *)
 From Coq Require Import Sorting.Permutation.
-From Ferrous Require Import Base.Bytes Generated Model.Resp Model.Types Model.PubSub Model.Server Model.Conn
+From Ferrous Require Import Base.Bytes Generated Model.Resp Model.Types Model.Glob Model.PubSub Model.Server Model.Conn
   Proofs.ConnFacts Proofs.PsGlobFacts Proofs.PubSubFacts Proofs.PubSubSrvFacts.
 Open Scope Z_scope.
 
@@ -38,47 +38,46 @@ Proof.
   intros H. destruct (H 1 empty_info eq_refl) as [X|X]; apply X; reflexivity.
 Qed.
 
-(** 2. the matcher decides the declarative glob (star, question mark, escape and - after the
-    repair eb2d54d - the character classes [..], [^..] with ranges x-y), for all patterns and
-    all texts, unbounded.  [GlobSpec] (Proofs/PsGlobFacts.v): a class runs from '[' to the first
-    ']' after it; its items are read left to right, `x-y` is a range when at least three bytes
-    remain and the middle one is '-'; a leading '^' negates; a '[' without a closing ']'
-    matches nothing. *)
+(** 2. the matcher decides the declarative glob (star, question mark, escape and the character
+    classes [..], [^..] with ranges and escapes), for all patterns and all texts, unbounded.
+    [GlobSpec] (Proofs/PsGlobFacts.v) reads a class as Redis does (after the repairs eb2d54d and
+    5de9d19): items left to right from the byte after '[' / '[^' ([class_parse]): a backslash
+    followed by another byte is that byte, `x-y` (at least three bytes remaining) the range
+    between the two whichever is greater, any other byte itself; the first unescaped ']' closes
+    the class; a class that is never closed runs to the end of the pattern. *)
 Theorem c14_glob_correct : forall p s, ps_match p s = true <-> GlobSpec p s.
 Proof. exact ps_match_correct. Qed.
 
-(** the loop over the items of a class body (with its early exit) decides membership in the
-    union of the items; the class test decides [class_accepts] *)
-Theorem c14_glob_class_items : forall body c,
-  class_loop body c = true <-> exists lo hi, In (lo, hi) (class_items body) /\ lo <= c <= hi.
-Proof. intros body c. exact (class_loop_iff _ body c (le_n _)). Qed.
-Theorem c14_glob_class_accepts : forall inner c, class_ok inner c = true <-> class_accepts inner c.
-Proof. exact class_ok_iff. Qed.
+(** the one-pass class loop of the code computes exactly the declarative reading of the class *)
+Theorem c14_glob_class_try : forall p' c, class_try p' c =
+  match class_split p' with
+  | (neg, items, rest) => if negb (Bool.eqb (items_b items c) neg) then Some rest else None
+  end.
+Proof. exact class_try_spec. Qed.
+Theorem c14_glob_class_items : forall items c, items_b items c = true <-> in_items items c.
+Proof. exact items_b_iff. Qed.
 
-(** formerly F-14b (class pubsub-glob-class, fixed by eb2d54d): the witnesses of the finding and
-    the corner cases of the class syntax, evaluated by the kernel *)
+(** the KEYS / SCAN MATCH matcher of engine.rs (Model/Glob.v) is the same algorithm and decides
+    the same relation *)
+Theorem c14_engine_glob_correct : forall p s, glob_match p s = true <-> GlobSpec p s.
+Proof. exact glob_match_correct. Qed.
+
+(** formerly F-14b (class pubsub-glob-class, fixed by eb2d54d) and class glob-class-end (fixed by
+    5de9d19): the witnesses of the findings and the corner cases of the class syntax, evaluated by
+    the kernel *)
 Example c14_glob_class_witness :
   ps_match (bs "[n]ews") (bs "news") = true /\ ps_match (bs "[n]ews") (bs "[n]ews") = false /\
   ps_match (bs "h[^e]llo") (bs "hallo") = true /\ ps_match (bs "h[^e]llo") (bs "hello") = false /\
   ps_match (bs "h[a-c]llo") (bs "hbllo") = true /\ ps_match (bs "h[a-c]llo") (bs "hdllo") = false /\
   ps_match (bs "*[0-9]") (bs "ab7c9") = true /\                 (* a failed class falls back to the star *)
-  ps_match (bs "[abc") (bs "[abc") = false /\ ps_match (bs "[abc") (bs "a") = false /\   (* unterminated *)
+  ps_match (bs "h[\]]llo") (bs "h]llo") = true /\ ps_match (bs "h[\]]llo") (bs "h\]llo") = false /\   (* escape inside a class *)
+  ps_match (bs "[abc") (bs "a") = true /\ ps_match (bs "[abc") (bs "[abc") = false /\   (* unterminated: to the end *)
+  ps_match (bs "[z-a]") (bs "m") = true /\                      (* reversed range: swapped *)
   ps_match (bs "[]a]") (bs "a]") = false /\ ps_match (bs "[]") (bs "]") = false /\     (* ']' first: empty class *)
   ps_match (bs "[^]") (bs "x") = true /\ ps_match (bs "[^]]") (bs "x]") = true /\      (* empty negated class *)
-  ps_match (bs "[a-]") (bs "-") = true /\ ps_match (bs "[a-]") (bs "b") = false /\     (* '-' at the end is a member *)
-  ps_match (bs "[\]") (bs "\") = true /\                        (* backslash inside a class is a member *)
-  ps_match (bs "\[n]ews") (bs "[n]ews") = true.                 (* escaped bracket *)
-Proof. vm_compute. repeat split; reflexivity. Qed.
-
-(** finding glob-class-end (open): where the class syntax differs from Redis.  The first ']'
-    ends a class and there are no escapes inside one: `h[\]]llo` is the class `\` followed by
-    the literal `]llo` (Redis: the class `]`); an unterminated class matches nothing (Redis: it
-    runs to the end of the pattern); a reversed range is empty (Redis swaps its ends).
-    [GlobSpec] states the rule as coded. *)
-Example c14_glob_class_end_refuted :
-  ps_match (bs "h[\]]llo") (bs "h]llo") = false /\ ps_match (bs "h[\]]llo") (bs "h\]llo") = true /\
-  ps_match (bs "[abc") (bs "a") = false /\ ps_match (bs "[abc") (bs "[abc") = false /\
-  ps_match (bs "[z-a]") (bs "m") = false.
+  ps_match (bs "[a-]") (bs "]") = true /\ ps_match (bs "[a-]") (bs "-") = false /\     (* the range ']'..'a', class unterminated *)
+  ps_match (bs "[\]") (bs "]") = true /\ ps_match (bs "[\") (bs "\") = true /\         (* `\]` unterminated; a lone backslash is a member *)
+  ps_match (bs "\[n]ews") (bs "[n]ews") = true.                 (* escaped bracket outside a class *)
 Proof. vm_compute. repeat split; reflexivity. Qed.
 
 (** 3. delivery (pubsub.rs publish after the repair 4d06fbe): the receiver list of PUBLISH is
